@@ -3,37 +3,37 @@
 CHECKS = {
     "C18": dict(engines=["c18", "c18thr"], level="exploration", gotree_bin=True, race_engines=["c18thr"],
                 quick=dict(batches=16, runs=300, race_batches=8, race_runs=25, timeout=900),
-                thorough=dict(batches=64, runs=2500, race_batches=32, race_runs=150, timeout=3000)),
+                thorough=dict(batches=64, runs=4000, race_batches=32, race_runs=300, timeout=5400)),
     "C17": dict(engines=["c17"], level="exploration",
                 quick=dict(batches=16, runs=800, timeout=900),
-                thorough=dict(batches=64, runs=3000, timeout=3000)),
+                thorough=dict(batches=64, runs=12000, timeout=5400)),
     "C15": dict(engines=["c15"], level="exploration",
                 quick=dict(batches=16, runs=1500, timeout=900),
-                thorough=dict(batches=64, runs=6000, timeout=3000)),
+                thorough=dict(batches=64, runs=30000, timeout=5400)),
     "C04": dict(engines=["c04hist", "c04map", "c04lin"], level="exploration", race_engines=["c04lin"],
                 quick=dict(batches=16, runs=800, race_batches=8, race_runs=60, timeout=900),
-                thorough=dict(batches=64, runs=4000, race_batches=16, race_runs=400, timeout=3000)),
+                thorough=dict(batches=64, runs=12000, race_batches=16, race_runs=600, timeout=5400)),
     "C03": dict(engines=["c03"], level="exploration",
                 quick=dict(batches=16, runs=2000, timeout=900),
-                thorough=dict(batches=64, runs=8000, timeout=3000)),
+                thorough=dict(batches=64, runs=40000, timeout=5400)),
     "C13": dict(engines=["c13"], level="exploration",
                 quick=dict(batches=16, runs=800, timeout=900),
-                thorough=dict(batches=64, runs=1500, timeout=3000)),
+                thorough=dict(batches=64, runs=15000, timeout=5400)),
     "C02": dict(engines=["c02"], level="fault_enumeration",
                 quick=dict(batches=16, runs=1500, timeout=900),
                 thorough=dict(batches=64, runs=6000, timeout=5400)),
     "C08": dict(engines=["c08"], level="exploration",
                 quick=dict(batches=16, runs=500, timeout=900),
-                thorough=dict(batches=64, runs=1500, timeout=3000)),
+                thorough=dict(batches=64, runs=10000, timeout=5400)),
     "C09": dict(engines=["c09"], level="exploration",
                 quick=dict(batches=16, runs=500, timeout=900),
-                thorough=dict(batches=64, runs=1500, timeout=3000)),
+                thorough=dict(batches=64, runs=8000, timeout=5400)),
     "C10": dict(engines=["c10"], level="exploration",
                 quick=dict(batches=16, runs=300, timeout=900),
-                thorough=dict(batches=64, runs=1000, timeout=3000)),
+                thorough=dict(batches=64, runs=4000, timeout=5400)),
     "C11": dict(engines=["c11", "c11cli"], level="exploration", race_engines=["c11"],
                 quick=dict(batches=16, runs=200, race_batches=16, race_runs=40, timeout=900),
-                thorough=dict(batches=64, runs=500, race_batches=32, race_runs=120, timeout=3000)),
+                thorough=dict(batches=64, runs=3000, race_batches=32, race_runs=500, timeout=5400)),
 }
 
 NA_PURE = "pure single-threaded function of its input: no schedule, clock, stream fault, nondeterminism seam or operation history can change its truth, so a simulator has nothing to own (DESIGN.md §2, §5)"
